@@ -43,6 +43,7 @@ class Module(object):
         self.tree._parent = None
         self._funcs = None
         self._classes = None
+        self._blines = None
 
     # ---- lookup helpers -------------------------------------------------
     def functions(self):
@@ -106,7 +107,20 @@ class Module(object):
         return found
 
     def seg(self, node):
-        return ast.get_source_segment(self.source, node) or ""
+        """Source text of a node (fast replacement for ast.get_source_segment)."""
+        try:
+            l0, c0, l1, c1 = node.lineno, node.col_offset, node.end_lineno, node.end_col_offset
+        except AttributeError:
+            return ""
+        if l1 is None or c1 is None:
+            return ""
+        if self._blines is None:
+            self._blines = [l.encode("utf-8") for l in self.source.splitlines(True)]
+        bl = self._blines
+        if l0 == l1:
+            return bl[l0 - 1][c0:c1].decode("utf-8")
+        parts = [bl[l0 - 1][c0:]] + bl[l0:l1 - 1] + [bl[l1 - 1][:c1]]
+        return b"".join(parts).decode("utf-8")
 
     def loc(self, node):
         return "%s:%d" % (self.relpath, getattr(node, "lineno", 0))
